@@ -158,6 +158,9 @@ SaveClausesC02(e) ==
      \cup (IF ok /\ Decoded(e, "short").ok /\ Decoded(e, "long").ok /\ Decoded(e, "tgjson").ok
               /\ ~(Decoded(e, "short") = Decoded(e, "long") /\ (HasNearInt(e) \/ Decoded(e, "short") = Decoded(e, "tgjson")))
            THEN {"C02_text_and_textgrid_json_identical_including_tier_spans"} ELSE {})
+     \* a save that raises produces no file: whatever it leaves at a fresh destination (an empty or half-written file) is
+     \* not a well-formed document (e.left: recorded by the harness for raising saves)
+     \cup (IF ~ok /\ "left" \in DOMAIN e /\ e.left = "file" THEN {"C02_raising_save_leaves_no_file_behind"} ELSE {})
 
 SaveClausesC04(e) ==
   LET ok == e.st = "ok"
@@ -175,6 +178,8 @@ SaveClausesC04(e) ==
                  \cup (IF d.lo = lo /\ d.hi = hi THEN {} ELSE {"C04_override_becomes_file_span"})
   IN (IF e.args.blanks /\ outside /\ ok THEN {"C04_raises_when_entry_outside_requested_span"} ELSE {})
      \cup (IF ~outside /\ ~ok THEN {"C04_saves_when_entries_inside_requested_span"} ELSE {})
+     \* "raises instead of writing an inconsistent file": nothing is left at a fresh destination
+     \cup (IF ~ok /\ "left" \in DOMAIN e /\ e.left = "file" THEN {"C04_raising_save_writes_no_file"} ELSE {})
      \cup (IF ok /\ ~(~e.args.blanks /\ outside) THEN UNION { tierFails(f) : f \in Formats } ELSE {})
 
 (* ---------------- "open" events (C03) --------------------------------------------------------- *)
